@@ -149,6 +149,7 @@ def run_mappings(ctx):
                 got = canon(cname, F)
                 jobs.append((descr, mc, which, cname, off, f, F.number_of_variables(), got, raised,
                              cmd('mapping_constraints', mapping_sx(mc), off, which)))
+    run_forbid(ctx, CNF)
     replies = ctx.model.batch([j[-1] for j in jobs])
     for (descr, mc, which, cname, off, f, nvar, got, raised, _), rep in zip(jobs, replies):
         key = (cname, str(mc), which, off)
@@ -180,3 +181,47 @@ def run_mappings(ctx):
         ctx.violation('correspondence', 'output of force_%s_mapping differs from the model (coq/Mapping.v); theorems C04_map_* no longer cover the code' % which,
                       dict(input=descr, implementation=dict(raised=raised, constraints=got), model=dict(raised=bool(mraised), constraints=want),
                            correspondence='Mapping.v <-> VariablesManager.force_%s_mapping' % which), False, site=site, cls='order-or-shape')
+
+
+def run_forbid(ctx, CNF):
+    """BinaryMappingVariables.forbid(i,j) for every pigeon and every j up to just beyond 2^bits:
+    the clause (or ValueError) against the model, and directly against "falsified exactly by the bits spelling j" """
+    rng = ctx.rng
+    probes = []
+    for n in (1, 2, 3):
+        for m in (1, 2, 3, 4, 5, 6, 7, 8, 9, 13, 16, 17):
+            off = rng.choice([0, 2, 5])
+            F = CNF()
+            F.update_variable_number(off)
+            f = F.new_binary_mapping(n, m)
+            k = f.bits()
+            for i in range(1, n + 1):
+                for j in range(0, 2 ** k + 2):
+                    try:
+                        got = ('ok', list(f.forbid(i, j)))
+                    except ValueError:
+                        got = ('ValueError',)
+                    except Exception as e:  # noqa
+                        got = ('exc', type(e).__name__)
+                    probes.append((dict(n=n, m=m, i=i, j=j, anonymous_before=off), got, [f(i, b) for b in range(k)],
+                                   cmd('forbid', off, n, m, i, j)))
+    replies = ctx.model.batch([p[-1] for p in probes])
+    for (descr, got, bitvars, _), rep in zip(probes, replies):
+        ctx.count('forbid', (descr['n'], descr['m'], descr['i'], descr['j'], descr['anonymous_before']), True, sample=descr)
+        want = ('ok', rep[1]) if isinstance(rep, list) else ('ValueError',)
+        if got[0] == 'exc':
+            ctx.violation('counterexample', 'forbid raised %s' % got[1], dict(input=descr), True, site='forbid', cls='raises-' + got[1])
+            continue
+        if got[0] == 'ok':
+            # falsified exactly when bit b of pigeon i equals bit b of j
+            j = descr['j']
+            expect = sorted((-v if (j >> b) & 1 else v) for b, v in enumerate(bitvars))
+            if sorted(got[1]) != expect:
+                ctx.disagreements_checked += 1
+                ctx.violation('counterexample', 'forbid(i,j) is not the clause falsified exactly by the bits spelling j',
+                              dict(input=descr, implementation=got[1], expected_literals=expect), True, site='forbid', cls='semantics')
+                continue
+        if got != want:
+            ctx.disagreements_checked += 1
+            ctx.violation('correspondence', 'forbid differs from the model (coq/Mapping.v forbid; theorem C04_map_forbid)',
+                          dict(input=descr, implementation=list(got), model=list(want)), False, site='forbid', cls='differs')
